@@ -20,8 +20,58 @@ import (
 
 //PRELUDE
 
+// govcStreamBoundaries: the stream twins (DecodeStream) are replayed on the boundary literals of every
+// destination width: a literal outside the range must be an error, one inside must be stored exactly.
+func govcStreamBoundaries() bool {
+	type tc struct {
+		kind reflect.Type
+		bits uint
+	}
+	confirmed := false
+	for _, c := range []tc{{reflect.TypeOf(int8(0)), 8}, {reflect.TypeOf(int16(0)), 16}, {reflect.TypeOf(int32(0)), 32}, {reflect.TypeOf(int64(0)), 64}} {
+		lim := new(big.Int).Lsh(big.NewInt(1), c.bits-1)
+		for _, v := range []*big.Int{new(big.Int).Sub(lim, big.NewInt(1)), lim, new(big.Int).Add(lim, big.NewInt(1)), new(big.Int).Neg(lim), new(big.Int).Sub(new(big.Int).Neg(lim), big.NewInt(1))} {
+			lit := v.String()
+			var x int64
+			d := newIntDecoder(runtime.Type2RType(c.kind), "", "", func(p unsafe.Pointer, v int64) { *(*int64)(p) = v })
+			s := NewStream(strings.NewReader(lit))
+			s.read()
+			err := d.DecodeStream(s, 0, unsafe.Pointer(&x))
+			fits := v.Cmp(lim) < 0 && v.Cmp(new(big.Int).Neg(lim)) >= 0
+			if err == nil && (!fits || big.NewInt(x).Cmp(v) != 0) {
+				fmt.Printf("REPLAY-CONFIRMED: stream decoding of %s into %v stores %d without error\n", lit, c.kind, x)
+				confirmed = true
+			}
+		}
+	}
+	for _, c := range []tc{{reflect.TypeOf(uint8(0)), 8}, {reflect.TypeOf(uint16(0)), 16}, {reflect.TypeOf(uint32(0)), 32}, {reflect.TypeOf(uint64(0)), 64}} {
+		lim := new(big.Int).Lsh(big.NewInt(1), c.bits)
+		for _, v := range []*big.Int{new(big.Int).Sub(lim, big.NewInt(1)), lim, new(big.Int).Add(lim, big.NewInt(1))} {
+			lit := v.String()
+			var x uint64
+			d := newUintDecoder(runtime.Type2RType(c.kind), "", "", func(p unsafe.Pointer, v uint64) { *(*uint64)(p) = v })
+			s := NewStream(strings.NewReader(lit))
+			s.read()
+			err := d.DecodeStream(s, 0, unsafe.Pointer(&x))
+			fits := v.Cmp(lim) < 0
+			if err == nil && (!fits || new(big.Int).SetUint64(x).Cmp(v) != 0) {
+				fmt.Printf("REPLAY-CONFIRMED: stream decoding of %s into %v stores %d without error\n", lit, c.kind, x)
+				confirmed = true
+			}
+		}
+	}
+	return confirmed
+}
+
 func TestGovcReplay(t *testing.T) {
 	m := govcModel()
+	if strings.HasSuffix(m.Function, "DecodeStream") {
+		fmt.Println("REPLAY-INPUT: boundary literals of every integer width through DecodeStream")
+		if !govcStreamBoundaries() {
+			fmt.Println("REPLAY-NOT-REPRODUCED")
+		}
+		return
+	}
 	lit := m.Bytes("b", '0', 64)
 	method := m.Function[strings.LastIndex(m.Function, ".")+1:]
 	if method == "Decode" || method == "decodeByte" {
